@@ -84,6 +84,22 @@ DESC = {
     "C17-4": "translate_jvp(None) zero of the argument's space instead of the output's",
     "C19-3": "trace() compares the output's level with trace_stack.top (wrong after a leaked level from a caught failure)",
     "C19-4": "np.gradient VJP keeps a generator over the axes (second backward pass returns zeros)",
+    "C01-7": "two edits: grad_diagonal pads by (axis2, axis1) sizes + make_diagonal accepts every spelling of the last two axes (non-square input: transposed cotangent shape)",
+    "C01-8": "repeat_to_match_shape trusts its keepdims argument (a dtype passed in NumPy's positional order lands in that slot: sum/mean/prod(x, axis, dtype))",
+    "C02-7": "two edits: JVPNode drops keyword arguments equal to None + sort JVP computes for N-d input (sort(X, axis=None) gets an X-shaped tangent)",
+    "C02-8": "linspace JVP wrt start builds its zero partner from g instead of stop (start smaller than stop: tangent not broadcast)",
+    "C03-7": "two edits: backward_pass seeds a parent from a passed-through accumulated buffer as mutable + add_outgrads returns g uncopied onto (None, flag) (two parents share one accumulator)",
+    "C03-8": "new_trace resets the depth to -1 when an exception passes (same idea as C19-1), shown through exception-steered control flow",
+    "C05-7": "two edits: dot_adjoint_0 2-D fast path skips the dtype cast + dot_vjp_0 drops match_complex (real 2-D A, complex B: complex gradient)",
+    "C05-8": "diag VJP crop guarded by a condition that is never true (non-square 2-D input, offset toward the long side: oversized gradient)",
+    "C06-7": "two edits: isinstance replacement passes boxes through for autograd's container classes + their metaclasses strip one box level only (False at depth >= 2)",
+    "C06-8": "trace() compares the output's level with trace_stack.top (a box is returned as the primal after a caught inner failure)",
+    "C08-7": "hessian rewritten as jacobian(jacobian(fun, argnum)): the outer level falls back to argument 0",
+    "C08-8": "two edits: operator results carry .argnum + operators default argnum to fun.argnum (grad(grad(f, 1)) differentiates twice wrt argument 1)",
+    "C10-7": "two edits: mut_add onto nothing returns x * 1.0 + scaling a float64 array by exactly 1 returns the array itself (scatter writes into the caller's cotangent)",
+    "C10-8": "container_untake slice branch zips (cotangent, accumulator) in the wrong order (accumulates into the caller's cotangent arrays)",
+    "C19-7": "two edits: make_vjp restores the depth when its trace raises + grad pops one level when make_vjp raises (depth popped twice after a failed nested grad)",
+    "C19-8": "make_jvp restores the depth captured when the operator object was built, not when it is called (stored jvp function failing at a deeper level)",
     "C20-3": "TraceStack.__init__ with a mutable default list shared by all threads",
     "C20-4": "trace() saves/restores the depth through a module-level list shared by all threads",
 }
